@@ -44,6 +44,7 @@ Matches(o) ==
              /\ tk'[x].next = Rng(TkRec(o, x).next)
              /\ tk'[x].processed = TkRec(o, x).processed
              /\ tk'[x].errHandled = TkRec(o, x).errHandled
+             /\ tk'[x].retryNo = TkRec(o, x).retryNo
         ELSE tk'[x].state = "none"
   /\ \A x \in Names :
         /\ Len(ax'[x]) = Cardinality(AxOf(o, x))
@@ -54,7 +55,8 @@ Matches(o) ==
   /\ Cardinality(jobs') = o.pend.jobsDue + o.pend.jobsLater + o.pend.running
   /\ now' = Steps[l + 1].ev.now
 
-Func(w) == IF w = "_refresh_task_state" THEN "refresh" ELSE IF w = "_check_and_fix_integrity" THEN "integrity" ELSE w
+Func(w) == CASE w = "_refresh_task_state" -> "refresh" [] w = "_check_and_fix_integrity" -> "integrity" [] w = "_continue_task" -> "continue"
+             [] w = "_complete_task" -> "complete" [] w = "_fail_task_if_incomplete" -> "timeout" [] OTHER -> w
 PtqOp(w) == IF w = "schedule_if_needed" THEN "sched_refresh" ELSE w
 SameMsg(m, e) == e.t = "" \/ (m.t = e.t /\ (m.m # "start_task" \/ m.fr = e.fr) /\ (m.m = "start_task" \/ m.k = e.k))
 Act(e) ==
